@@ -30,6 +30,18 @@ def c08_rt(tier, seed):
     return run_rt("c08_rt.py", "rt:c08", tier, seed, 1500, 60000)
 
 
+def c09_rt(tier, seed):
+    from pyvc.rtcheck import run_rt
+
+    return run_rt("c09_rt.py", "rt:c09", tier, seed, 400, 400, timeout=1500)
+
+
+def c18_rt(tier, seed):
+    from pyvc.rtcheck import run_rt
+
+    return run_rt("c18_rt.py", "rt:c18", tier, seed, 120, 4000, timeout=1500)
+
+
 def c19_rt(tier, seed):
     from pyvc.rtcheck import run_rt
 
@@ -216,6 +228,32 @@ PROPS = {
             "'every later download, stat or listing reflects the new content' beyond 'file and data stream closed before the completion reply' (backend visibility)",
             "the client side (Client.upload / download copy loops, get_stream command order): not under contract yet",
             "that MemoryPathIO / Python file objects satisfy the abstract file contract (see C18)",
+        ],
+        "explanation": "",
+    },
+    "C18": {
+        "modules": ["contracts.c18_backends", "contracts.worker_units"],
+        "unit_filter_prefix": ["PathIO-vs-AsyncPathIO.", "stor_worker@"],
+        "extra": ["contracts.index.c18_rt"],
+        "level": "proof",
+        "trusted_base": [T_PY, T_ENGINE, T_SOLVER, T_AIO, "T-os: equal pathlib call traces on an equal file system give equal outcomes"],
+        "assumptions": ["the statement's second sentence (the two file-system backends agree at the backend API) is decided per method and therefore for every operation sequence"],
+        "not_decided": [
+            "MemoryPathIO against the POSIX outcome specification: only the bounded differential rt/c18_rt.py (all single operations, random sequences of 2-3 operations over an 8-path universe, MemoryPathIO vs PathIO on a temporary directory) — labelled bounded",
+            "the Lister classes of the backends (glob iteration) are not under contract",
+            "real disks, permissions, case-insensitive file systems",
+        ],
+        "explanation": "",
+    },
+    "C09": {
+        "modules": ["contracts.c09_client"],
+        "extra": ["contracts.index.c09_rt"],
+        "level": "proof",
+        "trusted_base": [T_PY, T_ENGINE, T_SOLVER, T_PATH],
+        "assumptions": ["SEQ: one client operation at a time"],
+        "not_decided": [
+            "the whole-tree statement (identical structure and contents for every tree shape) is an induction over the tree using the step contracts; it is covered only by the bounded run-time checker rt/c09_rt.py (real client against a real in-process server; 4 tree shapes of depth <= 3, destinations '', 'd', 'd/e', '/d/e', write_into on/off, 2 working directories) — labelled bounded",
+            "the copy loops of upload/download (client side of C01) are not under contract",
         ],
         "explanation": "",
     },
